@@ -1244,13 +1244,23 @@ def is_method(n, name, callee_re=None):
     return None
 
 
+BOOLS = ["lit:True", "lit:False"]
+
+
 def admitted_tuples(pc, preds, universes):
     """tuples over `universes` (lists of variant names like 'Type::Array') that the path condition does not refute,
-    reading its `is` atoms on the scrutinee components selected by preds (one predicate per position); every other
-    atom is unknown (three-valued evaluation)"""
+    reading its `is` atoms on the scrutinee components selected by preds (one predicate per position) and, for positions
+    whose universe is BOOLS, the booleans tested directly; every other atom is unknown (three-valued evaluation)"""
     import itertools
 
     def atom_val(a, t):
+        if a.kind in ("call", "local", "opaque") and a.node is not None:
+            # a boolean tested directly (`if flag`, `if f()`): the position's value is 'lit:True' / 'lit:False'
+            v = Val(a.node, a.frame)
+            for pos, pr in enumerate(preds):
+                if pr(v) and set(universes[pos]) <= {"lit:True", "lit:False"}:
+                    return t[pos] == "lit:True"
+            return None
         if a.kind != "is":
             return None
         idx = []
